@@ -46,6 +46,11 @@ fn upv2(u) {
   var fa2 = || { return a; };
   return [fc(), fa2()];
 }
+fn cap3a(u) { var a = [u]; var b = [u + 1]; var c = [u + 2]; return || { return [a, c, b]; }; }
+fn cap3b(u) { var a = [u]; var b = [u + 1]; var c = [u + 2]; return || { return [c, a, b]; }; }
+fn cap4(u) { var a = [u]; var b = [u + 1]; var c = [u + 2]; var d = [u + 3]; var f = || { return [b, d]; }; var g = || { return [c, a, f()]; }; return g; }
+fn cap3p(a, b, c) { var x = [a]; return || { return [b, x, c, a]; }; }
+fn longstr(u) { var s = "long" + "${u}"; var i = 0; while i < 9 { s = s + s; i = i + 1; } return s; }
 fn keep2(a, b) { return a; }
 fn id3(a, b, c) { return [a, b, c]; }
 fn churn(n) {
@@ -202,6 +207,12 @@ OPS = [
     "type(mkinst({u})) == Inst",
     "mkctr({u})()",
     "upv({u})()",
+    "cap3a({u})()",
+    "cap3b({u})()",
+    "cap4({u})()",
+    "cap3p([{u}], ({u}, 1), [{u} + 1])()",
+    "longstr({u}).len()",
+    '[longstr({u}), "x"].len()',
     "upv2({u})",
     "{{[{u}].len(): ([{u}], [{u} + 1])}}",
     '("é" + "{u}" + "z").to_code_points()',
@@ -221,6 +232,10 @@ FAIL_OPS = [
     '("s" + "{u}").find([{u}], 0)',
     "String.from_utf8([{u} + 300, [1]])",
     "undefined_name_{u}",
+    "longstr({u}).to_num()",
+    "{{}}.insert([longstr({u})], 1)",
+    "[1, 2][longstr({u})]",
+    "longstr({u}).nothing",
 ]
 
 
@@ -232,6 +247,28 @@ fn helper() { return [detail, %d]; }
 var hook = helper;
 throw PlugErr.new();
 """ % (u, u, u, u))
+
+
+def _v(*xs):
+    return {"v": list(xs)}
+
+
+def _n(x):
+    from ..values import num
+    return num(x)
+
+
+# For a few operations the value is also known in closed form (closures over several variables of one frame, called after
+# the frame is gone): the reference run itself must produce it - "intact" means the variable's own value, not merely the
+# same wrong value under every schedule.
+OPS_EXPECT = {
+    "cap3a({u})()": lambda u: _v(_v(_n(u)), _v(_n(u + 2)), _v(_n(u + 1))),
+    "cap3b({u})()": lambda u: _v(_v(_n(u + 2)), _v(_n(u)), _v(_n(u + 1))),
+    "cap4({u})()": lambda u: _v(_v(_n(u + 2)), _v(_n(u)), _v(_v(_n(u + 1)), _v(_n(u + 3)))),
+    "cap3p([{u}], ({u}, 1), [{u} + 1])()": lambda u: _v({"t": [_n(u), _n(1)]}, _v(_v(_n(u))), _v(_n(u + 1)), _v(_n(u))),
+    "upv2({u})": lambda u: _v(_v(_n(u + 2)), _v(_n(u))),
+    "upv({u})()": lambda u: _v(_n(u + 1)),
+}
 
 
 def gen_ir(seed):
@@ -309,7 +346,7 @@ def render_gadget(g, gi):
         return ["fn op%d() { return %s; }" % (gid, expr), 'print(("ev", %d, Fiber.new(op%d).call()));' % (gid, gid)]
     _, oi, u = g
     expr = FAIL_OPS[oi].format(u=u)
-    return ['try { (%s); print(("ev", %d, "no-error")); } catch e { churn(1); print(("ev", %d, type(e))); }' % (expr, gid, gid)]
+    return ['try { (%s); print(("ev", %d, "no-error")); } catch e { churn(1); print(("ev", %d, type(e), e.context)); }' % (expr, gid, gid)]
 
 
 def wrap_probe(unwrap, tprobe, rootexpr):
@@ -372,8 +409,8 @@ class C01:
     TIMEOUT = 40.0
     RULE = ("case = generated heap-shape program: 3-9 gadgets, each either a retention chain root -> e1..e4 -> target (19 edge kinds "
             "x 18 target kinds x 23 root kinds; the chain is the only path to the target; allocation churn between building and "
-            "reading it back) or one of 41 operations that make the interpreter hold fresh unreferenced objects mid-operation "
-            "(10 of them failing, so that the error object is allocated meanwhile); every case is executed under never-collect, "
+            "reading it back) or one of 51 operations that make the interpreter hold fresh unreferenced objects mid-operation "
+            "(14 of them failing; the error message is read back afterwards, so that the error object is allocated meanwhile); every case is executed under never-collect, "
             "collect-at-every-allocation and a PRNG collection tape (rate 1/2, 1/8 or 1/64), all with quarantine. non-trivial = the "
             "always run reclaimed >= 1 object and the case has >= 1 chain; distinct = distinct program hash")
     COMPONENTS = {"real": ["yarel compiler", "VM", "heap: mark_roots/trace_references/sweep and every GcManaged impl", "Root/UniqueRoot handles", "core library"],
@@ -435,6 +472,17 @@ class C01:
             return evs, outs
         ref_events, ref_outs = flat(ref)
         stats.inc("events", len(ref_events))
+        # closed-form expectations for the operations that have one (events are [program, [gadget id, value]])
+        for gi, g_ in enumerate(ir["gadgets"]):
+            if g_[0] == "op" and OPS[g_[1]] in OPS_EXPECT:
+                want = OPS_EXPECT[OPS[g_[1]]](g_[2])
+                got = [e_[1][1] for e_ in ref_events if e_[0] == 0 and len(e_[1]) == 2 and e_[1][0] == _n(gi + 1)]
+                if got:
+                    stats.inc("closed_form_values_checked")
+                    if got[0] != want:
+                        res["violation"] = {"class": "captured-variable-lost", "msg": "gadget %d (%s): value %s, expected %s" % (
+                            gi + 1, OPS[g_[1]].format(u=g_[2]), json.dumps(got[0])[:200], json.dumps(want)[:200])}
+                        return res
         stats.inc("allocations", (ref.get("gc") or {}).get("allocs", 0))
         if any(o_[1] for o_ in ref_outs):
             stats.inc("reference_run_ended_with_error")
